@@ -3,7 +3,7 @@
 
   Modelled code (file:line of /repo):
     rogw/tranp/data/meta/header.py:13-91        MetaHeader (Tag, try_from_content, from_json, __init__, identity, __eq__, to_json, to_header_str)
-    rogw/tranp/bin/transpile.py:146             Config.force = config.get('force', args.force)
+    rogw/tranp/bin/transpile.py:146             Config.force = args.force or config.get('force', False)
     rogw/tranp/bin/transpile.py:303-310         Runner._run_impl (targets selected up front, then transpile + Writer per target)
     rogw/tranp/bin/transpile.py:312-325         Runner.can_transpile
     rogw/tranp/bin/transpile.py:337-349         Runner.try_load_meta_header
@@ -335,11 +335,11 @@ def outputFilepath (cfg : Cfg) (modulePath : Str) : Except Err Str :=
   | .error e => .error e
   | .ok p => .ok (abspath cfg.cwd p)
 
-/-- `Config.force = config.get('force', args.force)` (transpile.py:146) -/
+/-- `Config.force = args.force or config.get('force', False)` (transpile.py:146, after fix 4888761: the flag wins) -/
 def effForce (cfg : Cfg) (argForce : Bool) : Bool :=
-  match cfg.forceCfg with
-  | some b => b
-  | none => argForce
+  argForce || (match cfg.forceCfg with
+    | some b => b
+    | none => false)
 
 /-- `r == Ok p` -/
 def isOkEq (r : Except Err Str) (p : Str) : Bool :=
